@@ -33,12 +33,18 @@ def parseOp (ws : List String) (coroMode : Bool) (ncoros : Nat) : Option Op :=
   | ["mrg", i, j] => do let i ← n i; let j ← n j; pure (Op.merge i j)
   | ["asg", i, j] => do let i ← n i; let j ← n j; pure (Op.assign i j)
   | ["addh", i, h] => do let i ← n i; let h ← (n h).bind hOk; pure (Op.addH i h)
+  | ["addme", i, me] => do
+      let i ← n i; let me ← n me
+      if (coroMode && me == driverId) || (!coroMode && me ≥ ncoros) then pure (Op.addH i me) else none
+  | ["ctorself", i, me] => do
+      let i ← n i; let me ← n me
+      if coroMode && me == driverId then pure (Op.ctorH i me) else none
   | ["pop", i] => (n i).map Op.pop
   | ["clear", i] => (n i).map Op.clear
   | ["del", i] => (n i).map Op.dtor
   | ["await", i, me] => do
       let i ← n i; let me ← n me
-      if coroMode && me != driverId then none else pure (Op.await i me)
+      if (coroMode && me != driverId) || (!coroMode && me < ncoros) then none else pure (Op.await i me)
   | ["yield", me] => do
       let me ← n me
       if coroMode && me == driverId then pure (Op.yield me) else none
